@@ -240,7 +240,7 @@ let spec_val (t : ty) (d : dm) : string option =
    unless it really recurs — and then its entry is "fixed", which is a violation. *)
 let is_on (q : quirks) (set : quirks -> bool -> quirks) : bool = set q false <> q
 
-let prop_of_op = function "val" -> "C08" | "build" -> "C09" | _ -> "C13"
+let prop_of_op = function "val" | "valg" -> "C08" | "build" | "buildg" -> "C09" | _ -> "C13"
 
 let read_file (path : string) : string option =
   try let ic = open_in_bin path in
@@ -372,6 +372,7 @@ let vote name on =
 let gather (c : case) : unit =
   if wf c.t then begin
     let bind_obs = (match c.op with "both" -> (match split_obs c.obs with Some (b, _) -> Some b | None -> None)
+                                  | "valg" | "buildg" -> None
                                   | _ -> Some c.obs) in
     (match bind_obs with
      | Some ob ->
@@ -381,8 +382,8 @@ let gather (c : case) : unit =
            let a = f (set qoff true) in
            if a <> base then (if ob = a then vote name true else if ob = base then vote name false)) quirk_table
      | None -> ());
-    (match c.op, split_obs c.obs with
-     | "both", Some (_, og) when gen_supported c.t ->
+    (match c.op, (if c.op = "buildg" then Some ("", c.obs) else split_obs c.obs) with
+     | ("both" | "buildg"), Some (_, og) when gen_supported c.t ->
        let f q = outcome (build_obs Gen q c.lv c.t c.d) in
        let base = f qoff in
        List.iter (fun (name, set) ->
@@ -399,6 +400,23 @@ let tree_record (prop : string) : quirks =
       | (0, b) when b > 0 -> set q false
       | _ -> q) (default_record prop) (quirk_table @ gen_quirk_table)
 
+(* the generated code: its deviations are modelled exactly where they only change an outcome, and up
+   to the outcome (ok / err / panic) where a node is wrongly accepted *)
+let judge_gen (q0 : quirks) (fg : quirks -> string) (proj : string -> string) (og : string) (want : string) : string * string =
+  let unexplained () =
+    "fail:" ^ String.concat "," (List.map (fun c -> "gen_" ^ c) (component_classes (proj og) (proj want))) in
+  match settle q0 gen_quirk_table fg og with
+  | Some q -> (fg q, if proj og = proj want then "ok" else
+                 (match explain gen_quirk_table q fg proj og with
+                  | [] -> unexplained () | l -> "fail:" ^ String.concat "," l))
+  | None ->
+    if proj og = proj want then (fg q0, "ok") else
+      (match settle q0 gen_quirk_table (fun q -> outcome (fg q)) (outcome og) with
+       | Some q ->
+         (match explain gen_quirk_table q fg outcome og with
+          | [] -> (fg q0, unexplained ()) | l -> (fg q0, "fail:" ^ String.concat "," l))
+       | None -> (fg q0, unexplained ()))
+
 let process (q0 : quirks) (c : case) : unit =
   let out model verdict =
     print_string c.id; print_char '\t'; print_string model; print_char '\t'; print_endline verdict in
@@ -414,6 +432,20 @@ let process (q0 : quirks) (c : case) : unit =
           (match conforms_t t d with
            | Some v when not (has_type t v) -> out (f q0) "fail:spec_has_type"
            | _ -> let (m, v) = judge q0 quirk_table f id_proj obs want in out m v))
+  | "valg" ->
+    (* C08 on freshly generated code *)
+    let f q = val_obs Gen q t d in
+    if obs = "nobuild" then out (f q0) "fail:gen_does_not_compile"
+    else if not (wf t && gen_supported t) then out (f q0) "skip"
+    else (match spec_val t d with
+        | None -> out (f q0) "fail:generator_nonconforming"
+        | Some want -> let (m, v) = judge_gen q0 f id_proj obs want in out m v)
+  | "buildg" ->
+    (* C09 on freshly generated code *)
+    let f q = build_obs Gen q lv t d in
+    if obs = "nobuild" then out (f q0) "fail:gen_does_not_compile"
+    else if not (wf t && gen_supported t) then out (f q0) "skip"
+    else let (m, v) = judge_gen q0 f strip_r obs (spec_build lv t d) in out m v
   | "build" ->
     let f q = build_obs Bind q lv t d in
     if obs = "schemaerr" || obs = "protoerr" then out (f q0) "fail:harness_schema"
@@ -435,20 +467,7 @@ let process (q0 : quirks) (c : case) : unit =
        | Some (ob, og) ->
          let want = spec_build lv t d in
          let (mb, vb) = judge q0 quirk_table fb id_proj ob want in
-         (* the generated code's deviations are modelled up to the outcome (ok / err / panic) *)
-         let gen_unexplained () = "fail:" ^ String.concat "," (List.map (fun c -> "gen_" ^ c) (component_classes og want)) in
-         let (mg, vg) =
-           (match settle q0 gen_quirk_table fg og with
-            | Some q -> (fg q, if og = want then "ok" else
-                           (match explain gen_quirk_table q fg id_proj og with
-                            | [] -> gen_unexplained () | l -> "fail:" ^ String.concat "," l))
-            | None ->
-              if og = want then (fg q0, "ok") else
-                (match settle q0 gen_quirk_table (fun q -> outcome (fg q)) (outcome og) with
-                 | Some q ->
-                   (match explain gen_quirk_table q fg outcome og with
-                    | [] -> (fg q0, gen_unexplained ()) | l -> (fg q0, "fail:" ^ String.concat "," l))
-                 | None -> (fg q0, gen_unexplained ()))) in
+         let (mg, vg) = judge_gen q0 fg id_proj og want in
          let model = mb ^ "#" ^ mg in
          if ob = og then out model "ok"
          else begin
